@@ -15,12 +15,13 @@ import Driver.Limits
 import Driver.Lifecycle
 import Driver.WriteQueue
 import Driver.EventLoop
+import Driver.ClientPool
 
 open Drv
 
 def dispatch (line : String) : String :=
   let ws := words line
-  let ops : List (List String → Option String) := [base64Op, mimeOp, netOp, headersOp, cookieOp, parserOp, routerOp, promiseOp, queueOp, promiseMTOp, emitOp, roundTripOp, limitsOp, lifeOp, writeQueueOp, stallOp]
+  let ops : List (List String → Option String) := [base64Op, mimeOp, netOp, headersOp, cookieOp, parserOp, routerOp, promiseOp, queueOp, promiseMTOp, emitOp, roundTripOp, limitsOp, lifeOp, writeQueueOp, stallOp, clientOp]
   match ops.findSome? (fun f => f ws) with
   | some r => r
   | none => "bad-op"
